@@ -604,6 +604,96 @@ pub fn run_mf_adv(rep: &mut Report, rng: &mut Rng, thorough: bool, sweep: bool) 
     }
 }
 
+/// The match finders' 31-bit renormalisation (`hc4.rs` / `bt4.rs` `move_pos`: `if self.lz_pos == 0x7FFFFFFF { normalize }`):
+/// the real finder is started at a biased `lz_pos` (hook `mf_trace_biased`) so that the crossing happens inside the
+/// trace - at a position searched by a `find_matches`, or inside a `skip`, at the first position, near the end, or
+/// not at all.  Two comparisons per case: (a) against the renormalising Lean model started at the same `lz_pos`
+/// (`mf.trace ... lzstart=`, `Model/Hc4Renorm.lean` / `Bt4Renorm.lean`), (b) against the real finder WITHOUT bias on
+/// the same input and script - the statement of `hc4_renorm_simulates` / `bt4_renorm_simulates` on the real code.
+/// (A second crossing in one trace would need `0x7FFFFFFF - cyclic_size` more positions, > 1.2 GiB with the largest
+/// dictionary the encoders accept; the theorems cover any number of crossings.)
+pub fn run_mf_renorm(rep: &mut Report, rng: &mut Rng, thorough: bool, sweep: bool) {
+    let n = if thorough { 500 } else if sweep { 160 } else { 48 };
+    for i in 0..n {
+        let mut r = rng.fork();
+        let bt4 = i % 2 == 1;
+        let big = i % 12 == 10 || i % 12 == 11;
+        let dict: u32 = if big { *r.pick(&[65536u32, 1 << 20]) } else { *r.pick(&[1u32, 2, 8, 9, 64, 255, 4096, 4097, 5000]) };
+        let nice: u32 = *r.pick(&[8u32, 16, 32, 273]);
+        let depth: i32 = *r.pick(&[0i32, 0, 1, 4, 100]);
+        let normal = r.chance(1, 2);
+        let (eb, ea) = if normal { (4096u32, 4096u32) } else { (1, 272) };
+        let len = if big {
+            if thorough { r.range(100_000, 200_000) as usize } else { r.range(20_000, 40_000) as usize }
+        } else if dict >= 4096 {
+            dict as usize * 3 + r.range(0, 3000) as usize
+        } else {
+            *r.pick(&[40usize, 300, 1500, 4000])
+        };
+        let kind = r.below(13);
+        let data = if kind < 7 { mf_data(&mut r, kind, dict as usize, len) } else { mf_adv_data(&mut r, kind - 7, dict as usize, len) };
+        let style = r.below(3);
+        let mut script: Vec<u32> = Vec::new();
+        // (first position, number of positions, is_find) per op
+        let mut spans: Vec<(usize, usize, bool)> = Vec::new();
+        let mut covered = 0usize;
+        while covered < data.len() + 2 {
+            script.push(0);
+            spans.push((covered, 1, true));
+            covered += 1;
+            if style != 0 && r.chance(1, 2) {
+                let k = if style == 1 { r.range(1, 20) } else { r.range(1, 272) } as u32;
+                script.push(k);
+                spans.push((covered, k as usize, false));
+                covered += k as usize;
+            }
+        }
+        // the position whose `move_pos` reaches 0x7FFFFFFF
+        let want = r.below(10);
+        let cross: usize = match want {
+            0 => 0,
+            1 => data.len() + 50,                                   // never reached
+            2 => data.len().saturating_sub(r.range(1, 8) as usize), // in the pending tail / last positions
+            3 | 4 | 5 => {
+                // inside a skip (if the script has one)
+                let sk: Vec<&(usize, usize, bool)> = spans.iter().filter(|s| !s.2 && s.0 < data.len()).collect();
+                if sk.is_empty() { r.below(data.len().max(1) as u64) as usize } else { let s = sk[r.below(sk.len() as u64) as usize]; s.0 + r.below(s.1 as u64) as usize }
+            }
+            _ => {
+                // at a find, in the second half so that the tables are full of live and stale entries
+                let fs: Vec<&(usize, usize, bool)> = spans.iter().filter(|s| s.2 && s.0 < data.len() && s.0 * 3 >= data.len()).collect();
+                if fs.is_empty() { r.below(data.len().max(1) as u64) as usize } else { fs[r.below(fs.len() as u64) as usize].0 }
+            }
+        };
+        let lz_start: i32 = 0x7FFF_FFFF - 1 - cross as i32;
+        assert!(lz_start as i64 >= dict as i64 + 1);
+        let trace = hooks::mf_trace_biased(bt4, dict, eb, ea, nice, 273, depth, Some(lz_start), &data, &script);
+        let plain = hooks::mf_trace(bt4, dict, eb, ea, nice, 273, depth, &data, &script);
+        let (nf, nm, s) = trace_string(&trace);
+        let name = if bt4 { "bt4" } else { "hc4" };
+        let where_ = if cross >= data.len() { "none" } else if spans.iter().any(|s| s.2 && s.0 == cross) { "find" } else { "skip" };
+        let detail = || json!({"match_finder": name, "stratum": "renormalisation", "dict": dict, "nice_len": nice, "depth_limit": depth, "mode": if normal { "normal" } else { "fast" }, "data_kind": kind, "data_len": data.len(), "data_fnv": fnv(&data), "script_style": style, "lz_pos_start": lz_start, "crossing_position": cross, "crossing_in": where_, "data_hex": if data.len() <= 300 { hex(&data) } else { String::new() }});
+        if trace != plain {
+            let at = trace.iter().zip(plain.iter()).position(|(a, b)| a != b).unwrap_or(trace.len().min(plain.len()));
+            rep.fail(
+                &format!("mf-renorm-changes-matches:{name}"),
+                &format!("the match finder started at lz_pos = {lz_start} (renormalisation at position {cross}) reports other matches than the same finder started at cyclic_size: first difference at find #{at}: {:?} vs {:?}", trace.get(at), plain.get(at)),
+                detail(),
+            );
+        }
+        rep.count(&format!("mf.renorm.{name}"));
+        rep.count(&format!("mf.renorm.cross-{where_}"));
+        let sc = script.iter().map(|x| x.to_string()).collect::<Vec<_>>().join(",");
+        if data.len() <= if thorough { 210_000 } else { 70_000 } {
+            rep.model(
+                format!("mf.trace kind={name} dict={dict} nice={nice} depth={} mlmax=273 data={} script={sc} lzstart={lz_start} check=1", depth.max(0), hex(&data)),
+                format!("ok {nf} {nm} {} 1", fnv(s.as_bytes())),
+            );
+        }
+        rep.case(format!("mfrenorm:{}:{}:{}:{}", bt4 as u8, dict_class(dict), where_, kind), !data.is_empty(), || detail());
+    }
+}
+
 /// The whole fast-mode encoder (match finder + parser + range coder) as modelled in `Model/EncFast.lean` against the
 /// real `LZMAWriter::new_no_header(.., false)`: the model must produce the SAME BYTES (request `encfast.parse …
 /// enc=1 bytesonly=1`), for HC4 (the theorem `fast_roundtrip_generated` covers it) and BT4 (model only).
